@@ -3,7 +3,9 @@
 Runs the checks of the property a seeded change breaks against a scratch worktree of /repo with the change
 applied.  Everything the checks write (regenerated Gen tables, .vo files, model binaries, evidence, replays)
 goes into a private COPY of /verif ($SEED_VERIF, default /tmp/xvc-verif-seedcopy), so neither /repo nor /verif
-is touched and concurrent real checks are not disturbed.  The outcome is recorded in seeded/<id>/result.json."""
+is touched and concurrent real checks are not disturbed.  The copy is made from the COMMITTED state of /verif
+(git archive HEAD, exported once per invocation to $SEED_VERIF-src; --worktree copies the working tree instead),
+so work in progress in /verif is not tested by accident.  The outcome is recorded in seeded/<id>/result.json."""
 import sys, os, json, subprocess, argparse, time
 ROOT = os.path.dirname(os.path.dirname(os.path.abspath(__file__)))
 WT = os.environ.get("SEED_WT", "/tmp/xvc-verif-mutwt")
@@ -18,9 +20,14 @@ def main():
     ap.add_argument("ids", nargs="+")
     ap.add_argument("--tier", default="quick")
     ap.add_argument("--props")
+    ap.add_argument("--worktree", action="store_true", help="copy the working tree of /verif instead of its HEAD")
     a = ap.parse_args()
     if not os.path.exists(WT):
         r = sh("git -C /repo worktree add --detach %s HEAD" % WT); print(r.stdout)
+    SRC = ROOT
+    if not a.worktree:
+        SRC = COPY + "-src"
+        sh("rm -rf %s && mkdir -p %s && git -C %s archive HEAD | tar -x -C %s" % (SRC, SRC, ROOT, SRC))
     for sid in a.ids:
         d = os.path.join(ROOT, "seeded", sid)
         meta = json.load(open(os.path.join(d, "meta.json")))
@@ -31,8 +38,9 @@ def main():
         r = sh("git -C %s apply %s" % (WT, os.path.join(d, "patch.diff")))
         if r.returncode != 0:
             print(sid, "patch does not apply:", r.stdout); continue
-        # a fresh private copy of /verif (without the cargo target dirs); -t keeps times so nothing rebuilds needlessly
-        sh("mkdir -p %s && rsync -a --delete --exclude build/target --exclude build/harness --exclude replays --exclude .git %s/ %s/" % (COPY, ROOT, COPY))
+        # a fresh private copy of /verif (without the cargo target dirs); unchanged files keep their times (-a, or -c without -t
+        # for an export, whose files all carry the commit time) so nothing rebuilds needlessly
+        sh("mkdir -p %s && rsync %s --delete --exclude build/target --exclude build/harness --exclude replays --exclude .git %s/ %s/" % (COPY, "-a" if a.worktree else "-rlpc", SRC, COPY))
         res = {"repo_head": head, "tier": a.tier, "checks": {}}
         for p in props:
             env = dict(os.environ, VERIF_REPO=WT, VERIF_BUILD=BUILD)
